@@ -150,23 +150,32 @@ class Router:
         return ("out",), "written"
 
 
-def read_outputs(wd, files, layout):
+def _read(path, broken):
+    try:
+        return clih.read_records(path)[1]
+    except (clih.Malformed, OSError, UnicodeDecodeError, EOFError, ValueError) as e:
+        broken.append(f"{os.path.basename(path)}: {type(e).__name__}: {e}")
+        return []
+
+
+def read_outputs(wd, files, layout, broken=None):
     """files: mapping from expected_files. Returns {category: (records1, records2)} and the set of unexpected files."""
     got = {}
     listed = set()
+    broken = broken if broken is not None else []
     for cat, (f1, f2) in files.items():
         p1 = os.path.join(wd, f1)
         listed.add(f1)
         if not os.path.exists(p1):
             got[cat] = None
             continue
-        r1 = clih.read_records(p1)[1]
+        r1 = _read(p1, broken)
         if f2 == "INTERLEAVED":
             got[cat] = (r1[0::2], r1[1::2], len(r1) % 2)
         elif f2 is not None:
             listed.add(f2)
             p2 = os.path.join(wd, f2)
-            got[cat] = (r1, clih.read_records(p2)[1] if os.path.exists(p2) else None, 0)
+            got[cat] = (r1, _read(p2, broken) if os.path.exists(p2) else None, 0)
         else:
             got[cat] = (r1, None, 0)
     extra = set(n for n in os.listdir(wd) if n.endswith(".fq")) - listed
@@ -279,7 +288,10 @@ def run_scenario(opts, outs, layout, recs1, recs2, wd, report=None, want_json=Tr
     names1 = [a.name for a in a1]
     names2 = [a.name for a in a2]
     files = expected_files(opts, outs, layout, names1, names2)
-    got, extra = read_outputs(outd, files, layout)
+    broken = []
+    got, extra = read_outputs(outd, files, layout, broken)
+    for b in broken:
+        V.append(("files", f"output file does not parse: {b}", {}))
     if extra:
         V.append(("files", f"unexpected output files {sorted(extra)}", {}))
     for cat, g in got.items():
